@@ -21,3 +21,42 @@ Theorem C07_ctx_frame : forall s i f,
                                /\ mem i (s_ctxs s') = true /\ get s' i = Some g).
 Proof. exact append_ctx_frame. Qed.
 Print Assumptions C07_ctx_frame.
+
+(* the set of usable contexts is a function of the stored frames alone, at every reachable
+   state, however those frames got there (append or import) ... *)
+From XS Require Import Proofs.Inv Proofs.Refine Proofs.Corollaries.
+Theorem C07_registry_function : forall now ops c,
+  admissible now ops ->
+  mem c (s_ctxs (c_after now ops)) = mem c (a_ctxs (a_live (a_after now ops))).
+Proof. exact registry_function. Qed.
+Print Assumptions C07_registry_function.
+
+(* ... so it is the same before and after the store is reopened *)
+Theorem C07_reopen : forall now ops c,
+  admissible now ops ->
+  mem c (s_ctxs (c_after now (ops ++ [OReopen]))) = mem c (s_ctxs (c_after now ops)).
+Proof. exact registry_reopen. Qed.
+Print Assumptions C07_reopen.
+
+Theorem C07_accept_reachable : forall now ops i f,
+  admissible now (ops ++ [OAppend i f]) ->
+  is_ctx_topic (f_topic f) = false -> has_nul (f_topic f) = false ->
+  ((exists g s', append (c_after now ops) i f = (Ok g, s'))
+   <-> mem (f_ctx f) (a_ctxs (a_live (a_after now ops))) = true).
+Proof. exact append_accept_reachable. Qed.
+Print Assumptions C07_accept_reachable.
+
+(* regression witness for the defect fixed in /repo (fix: register an imported xs.context
+   frame immediately): with the pinned insert_frame the registry is NOT a function of the
+   stored frames - an imported registration is unusable until restart *)
+Example C07_pinned_import_refuted :
+  let f := mkFrame 7 0 xs_context None None None in
+  let s := snd (insert_frame_gen false (empty_store 0) f) in
+  get s 7 = Some f /\ mem 7 (s_ctxs s) = false /\ mem 7 (s_ctxs (reopen s)) = true.
+Proof. vm_compute. repeat split; reflexivity. Qed.
+
+Example C07_nonvacuous :
+  admissible 0 [OImport (mkFrame 7 0 xs_context None None None);
+                OAppend 9 (mkFrame 0 7 [97] None None None); ORemove 7; OReopen;
+                OAppend 10 (mkFrame 0 7 [97] None None None)].
+Proof. reflexivity. Qed.
